@@ -172,8 +172,15 @@ def _install_line_hook(p, events, cap):
     return undo
 
 
+ERRLINE = __import__("re").compile(r"^\[[^\]]*\] Line \d+: ")     # what ErrorHandler sends to the printers under 'print'
+
+
 def snapshot(p, line, ret, exc, cap):
     lm = p.line_monitor
+    nerr = sum(1 for s in cap.lines if ERRLINE.match(s))
+    if nerr > getattr(cap, "_err_lines", 0):
+        cap._err_calls = getattr(cap, "_err_calls", 0) + 1
+    cap._err_lines = nerr
     votes = None
     if p.matcher is not None:
         votes = [e[1] for e in p.matcher.expressions]
@@ -192,6 +199,8 @@ def snapshot(p, line, ret, exc, cap):
         "votes": votes,
         "nprinted": len(cap.lines),
         "nerrors": len(p.errors) if p.errors else 0,
+        "errcalls": getattr(cap, "_err_calls", 0),
+        "errlines": [int(e.line_count) if isinstance(getattr(e, "line_count", None), int) else -99 for e in (p.errors or [])] if isinstance(p.errors, list) else [],
     }
 
 
